@@ -463,7 +463,8 @@ func genC06(t *rapid.T) c06Case {
 	base := bases[rapid.IntRange(0, len(bases)-1).Draw(t, "base")]
 	if c06NoFar {
 		// the first days of the first year the layout can write: the keywords reach back into a year it cannot write
-		base = []int{vDaysFromCivil(1969, 1, 1), vDaysFromCivil(1969, 1, 1), vDaysFromCivil(2068, 12, 20), c06Base}[rapid.IntRange(0, 3).Draw(t, "base2y")]
+		// ... and the turn of the century inside the range of the layout (99/12/31 is followed by 00/01/01)
+		base = []int{vDaysFromCivil(1969, 1, 1), vDaysFromCivil(1969, 1, 1), vDaysFromCivil(2068, 12, 20), c06Base, vDaysFromCivil(1999, 12, 28), vDaysFromCivil(1999, 12, 30), vDaysFromCivil(2000, 2, 26)}[rapid.IntRange(0, 6).Draw(t, "base2y")]
 	}
 	exact := true
 	lo := vLayoutOpts{Plain: true}
